@@ -291,7 +291,7 @@ def sem_tree(rel, env, prefer="r"):
         raise TypeError(f"unexpected binary operation node {o!r}")
     if isinstance(rel, UnaryOperationRelation):
         t = sem_tree(rel.target, env, prefer)
-        return apply_lib_op(t, rel.operation)
+        return apply_lib_op(t, rel.operation, count_mode=env.count_mode)
     raise TypeError(f"unexpected relation node {rel!r}")
 
 
@@ -299,7 +299,7 @@ class IllFormed(Exception):
     pass
 
 
-def apply_lib_op(t, o, strict=False):
+def apply_lib_op(t, o, strict=False, count_mode=False):
     """Apply a real UnaryOperation object to an oracle table."""
     from lsst.daf.relation import Calculation, Deduplication, Identity, Projection, Selection, Slice, Sort
 
@@ -323,7 +323,9 @@ def apply_lib_op(t, o, strict=False):
                                  for term in o.terms])
     if isinstance(o, Slice):
         if not t.ordered:
-            raise Skip("slice of an unordered relation is indeterminate")
+            if not count_mode:
+                raise Skip("slice of an unordered relation is indeterminate")
+            t = relmodel.index_order(t)
         return relmodel.slice_(t, zint(o.start), None if o.stop is None else zint(o.stop))
     raise TypeError(f"unexpected unary operation node {o!r}")
 
